@@ -164,7 +164,7 @@ def alpha_table(table):
     return _ALPHA_TABLES[k]
 
 
-def classify(ctx: Ctx, h: ba.Hit, root, uni, tfuncs, exceptions, per_row):
+def classify(ctx: Ctx, h: ba.Hit, root, uni, tfuncs, exceptions, per_row, reduced_over_all=False):
     """-> (status, reason, function, text, where); status in ok | bad"""
     fn, text, where = locate(ctx, h)
     if h.kind == "row-pick" and h.node.op == "sub":
@@ -183,8 +183,14 @@ def classify(ctx: Ctx, h: ba.Hit, root, uni, tfuncs, exceptions, per_row):
         ops_ = [x for x in (n0.args if n0.op in ba.ELEMENTWISE else (n0.args[1:] if n0.op == "call" else [n0.args[0]] + list(n0.args[2:]))) if isinstance(x, vg.S) and not ba.is_scalarish(x)]
         for x in ops_:
             dc, dp = vg.cells_of(x), vg.params_of(x)
-            if dc and dc <= uni and not dp:
-                return "ok", f"one operand of the rank-mismatched broadcast is row-uniform ({sorted(dc)}): the [B, B] result repeats each row's own value", fn, text, where
+            # the uniform operand must be the LOW-rank ([B]) one: result[r, c] = f(high[r], u) is constant along each row.  If
+            # the uniform operand is the [B, 1] one, result[r, c] = f(u, low[c]): every row holds the values of ALL instances
+            if dc and dc <= uni and not dp and x is not h.operand and nf.strip(x) is not nf.strip(h.operand):
+                return "ok", f"the rank-1 operand of the rank-mismatched broadcast is row-uniform ({sorted(dc)}): the [B, B] result repeats each row's own value", fn, text, where
+            if dc and dc <= uni and not dp and reduced_over_all:
+                # every row of the [B, B] result is the same vector of per-instance values, and the only consumers are assertions
+                # over ALL entries: the verdict is that of the per-instance vector
+                return "ok", f"the [B, 1] operand is row-uniform ({sorted(dc)}) and the result only feeds assertions over all entries", fn, text, where
     if fn in per_row:
         return "ok", per_row[fn], fn, text, where
     why = alpha_table(exceptions).get((fn, h.kind, alpha_key(text)))
@@ -266,7 +272,8 @@ def run(ctx: Ctx):
             n_hits += len(per_hit)
             bad = 0
             for h, root, snks in per_hit.values():
-                st, why, fn, text, where = classify(ctx, h, root, uni, tfuncs, EXCEPTIONS, PER_ROW_FUNCTIONS)
+                st, why, fn, text, where = classify(ctx, h, root, uni, tfuncs, EXCEPTIONS, PER_ROW_FUNCTIONS,
+                                                    reduced_over_all=all(str(x).startswith("assert@") for x in snks))
                 if st == "ok":
                     ctx.note(f"{cname}.{meth}: {h.kind} `{text}` in {fn} -> {sorted(set(snks))[:4]}: {why}")
                     if why.startswith("exception"):
